@@ -20,6 +20,8 @@ REGISTRY = {
     "C04": ("vf.props.recheck_family", "C04"),
     "C05": ("vf.props.recheck_family", "C05"),
     "C16": ("vf.props.recheck_family", "C16"),
+    "C06": ("vf.props.meta_family", "C06"),
+    "C07": ("vf.props.meta_family", "C07"),
 }
 
 
@@ -47,7 +49,7 @@ def main():
         with open(args.replay) as fd:
             doc = json.load(fd)
         case = doc["case"]
-        os.environ["VERIF_CHILD_OUTPUT"] = ""
+        os.environ["VERIF_CHILD_OUTPUT"] = "1"
         res = harness.run_one(P.run, case, timeout=600)
         print(json.dumps(harness.jsonable(res), indent=1)[:20000])
         bad = [v for v in res.get("violations", [])]
